@@ -29,8 +29,6 @@ impl<A: Actor> Spawner<A> for SmolSpawner {
         )))));
         log::trace!("spawning smol task");
 
-        let detach_handle = Arc::clone(&handle);
-
         ActorHandle::new(move || -> JoinFuture<A> {
             log::trace!("joining smol task");
             let handle = Arc::clone(&handle);
@@ -51,11 +49,8 @@ impl<A: Actor> Spawner<A> for SmolSpawner {
                 }
             })
         })
-        .with_detach_fn(move || {
-            log::trace!("detaching smol task");
-            // dropping the guard detaches the task
-            drop(detach_handle.lock_blocking().take());
-        })
+        // no detach function: the guard detaches the task when the last reference to the slot goes away,
+        // and a join future that was created before `detach()` can still be awaited (as on tokio and async-std)
     }
 
     fn spawn_future<F>(future: F)
